@@ -33,7 +33,8 @@ ASSUMPTIONS = [
     'text an abandoned thread writes to the real console after the patches are gone is counted, not judged',
 ]
 COMPONENTS = {'real': c04.COMPONENTS['real'] + ['pedal.sandbox.timeout (InterruptableThread, timeout)', 'CPython threads (one runs at a time)'],
-              'stub': c04.COMPONENTS['stub'] + ['Thread.start/join/is_alive wrappers', 'PyThreadState_SetAsyncExc (fake ctypes)',
+              'stub': c04.COMPONENTS['stub'] + ['Thread.start/join/is_alive wrappers (join raises a pending asynchronous exception out of '
+                                                'the wait and then reports the waited-for thread as stopped, as CPython 3.12 does)', 'PyThreadState_SetAsyncExc (fake ctypes)',
                                                 'threading.Event.wait / Lock for student code']}
 
 LIB = progs.source(histories.LIBRARY)
